@@ -310,7 +310,7 @@ func kfArrayFor(args []KeyBuilderStage) (KeyBuilderStage, error) {
 				break
 			}
 
-			if sb.Len() > 0 {
+			if idx > 0 {
 				sb.WriteRune(ArraySeparator)
 			}
 			sb.WriteString(val)
